@@ -223,6 +223,11 @@ pub trait Prop: Sync {
     }
     /// real-vs-stub table for the evidence
     fn real_vs_stub(&self) -> (Vec<&'static str>, Vec<&'static str>);
+    /// cases may kill the process (abort, SIGSEGV): workers announce run and case numbers and
+    /// the orchestrator turns a death into a violation attributed to the announced case
+    fn isolated(&self) -> bool {
+        false
+    }
     /// true when `runs(tier)` enumerates a finite space completely
     fn exhaustive(&self, _tier: Tier) -> bool {
         false
